@@ -217,7 +217,7 @@ def run_impl(case):
   obs = L.run_case(case)
   if case.get('threads'):
     obs['threads'] = case['threads']
-  if obs.get('build') is None and 'make_error' not in obs and not obs.get('agg'):
+  if obs.get('build') is None and 'make_error' not in obs and not obs.get('agg') and not obs.get('hang'):
     try:
       ref = L.reference(case)
       obs['pyref'] = dict(out=ref['out'], err=list(ref['err']) if ref['err'] else None, logs=ref['logs'], exact=ref['exact'])
@@ -249,6 +249,8 @@ def compare(impl, model):
     return f"make()/iterate() raised {impl['make_error']}"
   if impl.get('agg'):
     return None
+  if impl.get('hang'):
+    return 'the pipeline did not finish'
   for k in ('out', 'err', 'cause', 'logs', 'closed'):
     if impl.get(k) != model.get(k):
       return f'{k}: code {jdump(impl.get(k))[:300]} / model {jdump(model.get(k))[:300]}'
@@ -273,6 +275,8 @@ def compare_threads(impl, model):
     return f"builder: code {impl.get('build')} / model {model.get('build')}"
   if impl.get('build') is not None or impl.get('agg'):
     return None
+  if impl.get('hang'):
+    return 'the threaded pipeline did not finish'
   if model.get('err') is not None:
     return None if impl.get('err') is not None else 'model predicts an error, the threaded run had none'
   if impl.get('err') is not None:
@@ -332,17 +336,23 @@ def oracle(case, obs):
     if inv is None and not builder_rule(case['specs']):
       return f"[over-reject] the builder rejected ({obs['build']}) a chain that is a valid combination"
     return None
+  if inv is None and builder_rule(case['specs']):
+    inv = 'an assign key that an earlier operator of the pipeline already produced, or SELF mixed with other assign keys'
   if inv is not None:
     return f'[accepted-invalid] the builder accepted an invalid combination: {inv}'
   if 'make_error' in obs:
     return f"make()/iterate() raised {obs['make_error']}"
   if obs.get('agg'):
     return None
+  if obs.get('hang'):
+    return '[hang] the pipeline did not finish (or built a cyclic record)'
   ref = obs.get('pyref') or {}
   if 'crash' in ref:
     return f"harness: the reference interpreter crashed: {ref['crash']}"
   if obs.get('mutated'):
     return f"[mutation] {obs['mutated']}"
+  if obs.get('threads_alive'):
+    return f"[threads] {obs['threads_alive']} helper threads are still alive after the iteration ended"
   if obs.get('write_after_close'):
     return '[sink] a sink was written after it had been closed'
   threads = case.get('threads')
